@@ -23,6 +23,7 @@ type Config struct {
 	FPSolver    string // solver for queries that mention floating point
 	TimeoutMs   int    // per query
 	FPTimeoutMs int    // per floating-point query (default min(TimeoutMs, 60 s))
+	ForkHardFP  bool   // do not ask the solver about branches on symbolic FP division / sqrt: explore both sides
 	MapOrderMax int    // maps with 2..k entries are ranged in every order
 	Workers     int
 	Verbose     bool
@@ -277,6 +278,13 @@ func (i *interpreter) assume(c *Term) {
 		}
 		return
 	}
+	if i.cfg.ForkHardFP && c.HardF {
+		// per-harness over-approximation: a constraint through a symbolic FP division / sqrt is
+		// kept as a syntactic fact only; later queries are posed without it (more paths, never
+		// fewer; a model that contradicts it fails native replay and is reported inconclusive)
+		i.noteKnown(c, true)
+		return
+	}
 	i.pc = append(i.pc, c)
 	if i.model != nil {
 		if v, ok := evalTerm(c, i.model, map[int]uint64{}); !ok || v != 1 {
@@ -325,6 +333,7 @@ func (i *interpreter) fp() *Solver {
 			f, _ := os.Create(fmt.Sprintf("%s.%s.fp.smt2", i.cfg.LogSMT, i.harnessName))
 			s.Log = f
 		}
+		s.DeathIsUnknown = true
 		i.fsolver = s
 	}
 	return i.fsolver
@@ -499,7 +508,14 @@ func (i *interpreter) decide(c *Term, why string) bool {
 		mv, mok = evalTerm(c, i.model, map[int]uint64{})
 	}
 	var rt, rf string
-	if mok && mv == 1 {
+	if i.cfg.ForkHardFP && c.HardF {
+		// declared per harness: feasibility of a branch on a symbolic quotient / square root is
+		// not asked (the FP solver does not answer in useful time); both sides are explored
+		rt, rf = "unknown", "unknown"
+		if i.whyCount != nil {
+			i.whyCount["not asked (FP division / sqrt): both sides explored"]++
+		}
+	} else if mok && mv == 1 {
 		rt = "sat"
 		i.modelHits++
 	} else {
@@ -510,7 +526,9 @@ func (i *interpreter) decide(c *Term, why string) bool {
 		i.assume(nc)
 		return false
 	}
-	if mok && mv == 0 {
+	if rf == "unknown" {
+		// not asked (see above)
+	} else if mok && mv == 0 {
 		rf = "sat"
 		i.modelHits++
 	} else {
